@@ -9,6 +9,7 @@ import RsMatterVerif.Lemmas.CodecCheckIn
 import RsMatterVerif.Lemmas.CodecBleAdv
 import RsMatterVerif.Lemmas.CodecBleRecovery
 import RsMatterVerif.Lemmas.CodecMdnsRound
+import RsMatterVerif.Lemmas.CodecMdnsService
 /-!
 # C17 — headers, onboarding payloads and discovery records decode what was encoded
 
@@ -521,5 +522,35 @@ theorem mdns_query_ignored (name : List (List Nat)) (rtype : Nat) (scope : Optio
     (NameWF name → rtype < 65536 →
       answerStart (queryBytes name rtype) = .ok ⟨(queryBytes name rtype).length, (queryBytes name rtype).length⟩) :=
   ⟨parse_query name rtype scope, answerStart_query name rtype⟩
+
+/-! ### what a Matter node publishes (`MatterLocalService::service`, `transport/network/mdns.rs`) -/
+
+/-- the instance name, the service type and every subtype are legal DNS names, and every TXT pair fits a TXT
+string, has a key without `=` and is UTF-8 - for every value of the identifiers, discriminator, vendor / product
+id, session parameters, pairing hint, device type, TCP / ICD flags (device name and pairing instruction: UTF-8,
+≤ 249 octets) -/
+theorem mdns_matter_service_legal (l : LocalSvc) (dd : DevDet) (port : Nat) (icd : Option Bool) (hdd : dd.WF) :
+    NameWF (serviceFqdn (matterService l dd port icd).1) ∧
+    (∀ sub ∈ (matterService l dd port icd).1.subtypes, NameWF (subtypeFqdn (matterService l dd port icd).1 sub)) ∧
+    (∀ kv ∈ (matterService l dd port icd).1.txt, TxtOk kv) :=
+  ⟨(matterService_names l dd port icd).1, (matterService_names l dd port icd).2, matterService_txt l dd port icd hdd⟩
+def mdnsSampleDevDet : DevDet :=
+  { vid := 0xFFF1, pid := 0x8000, sai := some 300, sii := none, deviceName := [84, 101, 115, 116],
+    pairingInstruction := [], pairingHint := 33, deviceType := some 257, tcp := true }
+example : DevDet.WF mdnsSampleDevDet :=
+  ⟨by decide, by decide, by decide, by decide⟩
+
+/-- **end to end**: what a Matter node publishes, written by `Host::broadcast` and read by `parse_into_answer`,
+comes back with the published instance name, port, TXT pairs (`D`, `CM`, `VP`, …) in order and the host's addresses -/
+theorem mdns_matter_service_round_trip (h : HostCfg) (l : LocalSvc) (dd : DevDet) (port : Nat) (icd : Option Bool)
+    (hostTtl svcTtl : Nat) (scope : Option Nat) (hdd : dd.WF) (hhost : NameWF (hostFqdn h)) (hip : h.ip.length = 4)
+    (hip6 : ∀ a ∈ h.ipv6, a.length = 16) (hn6 : h.ipv6.length ≤ 1000) (hport : port < 65536)
+    (ht1 : hostTtl < 4294967296) (ht2 : svcTtl < 4294967296) :
+    parseIntoAnswer (broadcastBytes h (matterService l dd port icd).1 hostTtl svcTtl) scope = .ok (some {
+      inst := flatName (serviceFqdn (matterService l dd port icd).1), port := some port, addrs := hostAddrs h,
+      txt := (matterService l dd port icd).1.txt, scope := scope.getD 0 }) :=
+  matterService_round_trip h l dd port icd hostTtl svcTtl scope hdd hhost hip hip6 hn6 hport ht1 ht2
+example : NameWF (hostFqdn mdnsSampleHost) ∧ mdnsSampleHost.ip.length = 4 ∧ (∀ a ∈ mdnsSampleHost.ipv6, a.length = 16) ∧
+    mdnsSampleHost.ipv6.length ≤ 1000 := by decide
 
 end C17
